@@ -217,7 +217,7 @@ fn ev_strategy() -> impl Strategy<Value = Ev> {
 }
 
 pub fn run(ctx: &Ctx) {
-    ctx.set_rule("breadth-first exploration, through the real update() (hook H2), of the UI states reachable from start-up for tables of 0, 1, 2 and 3 rows over the alphabet {j,k,g,q,a,c,v,.,f,l,-,/,Esc,Enter,Backspace,Up,Down,Home,PageUp,x,J,PageDown,Tab,Tick(120),Tick(80),Error}; states abstracted to (quit, search mode, query length capped at 2, sort key, order, width, selected row); every edge is executed by replaying its shortest path from a fresh application state. Plus every printable ASCII character, six non-ASCII characters and every special key in each of sixteen contexts (incl. terminal widths 0, 1, 3, 38, 39 and 65535); search patterns of 1 to 300 one- to four-byte characters typed and erased; and proptest-random sequences up to 300 events (any printable char, any tick width) on tables of 0..=3, 10 and 1000 rows. Oracle: no panic; selected row = 0 on an empty table, < rows otherwise; (quit, search mode, sort key, order) and the query equal a reference automaton written from docs/output.md and the table's help line. Non-trivial = a distinct (rows, model state, event) edge.");
+    ctx.set_rule("breadth-first exploration, through the real update() (hook H2), of the UI states reachable from start-up for tables of 0, 1, 2 and 3 rows over the alphabet {j,k,g,q,a,c,v,.,f,l,-,/,Esc,Enter,Backspace,Up,Down,Home,PageUp,x,J,PageDown,Tab,Tick(120),Tick(80),Error}; states abstracted to (quit, search mode, query length capped at 2, sort key, order, width, selected row); every edge is executed by replaying its shortest path from a fresh application state. Plus every printable ASCII character, six non-ASCII characters and every special key in each of sixteen contexts (incl. terminal widths 0, 1, 3, 38, 39 and 65535); search patterns of 1 to 300 one- to four-byte characters typed and erased; and proptest-random sequences up to 300 events (any printable char, any tick width) on tables of 0..=3, 4-299 and 1000 rows; every navigation key held down until the selection has gone round tables of 4-130, 199-201, 255-257, 1000 and 1023-1025 rows (thorough: up to 65 537), from the first row, the last row and the middle. Oracle: no panic; selected row = 0 on an empty table, < rows otherwise; (quit, search mode, sort key, order) and the query equal a reference automaton written from docs/output.md and the table's help line. Non-trivial = a distinct (rows, model state, event) edge.");
     ctx.assume("the row count is fixed during a sequence (rows are rebuilt by the renderer, which is outside update())");
     let pool = Pool::new(16);
     for rows in 0..=3usize {
@@ -286,10 +286,62 @@ pub fn run(ctx: &Ctx) {
         }
         ctx.class_n("long search patterns of multi-byte characters, typed and erased", cases.len() as u64);
     }
+    // larger tables ("any number of aircraft"): every navigation key held down until the selection has gone round the
+    // table, from the first row, from the last row and from the middle
+    {
+        let nav = ["j", "k", "Down", "Up", "PageDown", "PageUp", "Home", "g", "End", "G"];
+        let mut sizes: Vec<usize> = (4..=130).collect();
+        sizes.extend([199, 200, 201, 255, 256, 257, 1000, 1023, 1024, 1025]);
+        if ctx.tier == vcore::ev::Tier::Thorough {
+            sizes.extend([4095, 4096, 4097, 65_535, 65_536, 65_537]);
+        }
+        let mut cases: Vec<(usize, Vec<Ev>)> = vec![];
+        for rows in sizes {
+            let reps = |n: usize, k: &str| (0..n).map(|_| Ev::Key(k.to_string())).collect::<Vec<Ev>>();
+            for key in ["j", "k", "Down", "Up"] {
+                cases.push((rows, reps(rows + 2, key)));
+            }
+            for key in ["PageDown", "PageUp"] {
+                cases.push((rows, reps(rows / 5 + 3, key)));
+                // to the last row (k wraps), then the key; to the middle, then the key
+                let mut s = reps(1, "k");
+                s.extend(reps(3, key));
+                cases.push((rows, s));
+                let mut s = reps(rows / 2, "j");
+                s.extend(reps(rows / 10 + 3, key));
+                cases.push((rows, s));
+            }
+            // every navigation key on the last row, and on the first
+            for key in nav {
+                let mut s = reps(1, "k");
+                s.push(Ev::Key(key.to_string()));
+                s.push(Ev::Key("j".into()));
+                cases.push((rows, s));
+                let mut s = reps(rows - 1, "j");
+                s.push(Ev::Key(key.to_string()));
+                s.push(Ev::Key(key.to_string()));
+                cases.push((rows, s));
+            }
+            // sorting and search with a selection far down the table
+            let mut s = reps(rows - 1, "Down");
+            s.extend(["a", "-", ".", "-", "/", "x", "Enter", "j", "k", "Esc", "j"].iter().map(|k| Ev::Key(k.to_string())));
+            cases.push((rows, s));
+        }
+        let fails: Vec<Failure> = cases.par_iter().filter_map(|(rows, seq)| check_seq(ctx, &pool, *rows, seq, true).err()).collect();
+        let mut seen = std::collections::BTreeSet::new();
+        let mut fails = fails;
+        fails.sort_by(|a, b| a.signature.cmp(&b.signature).then(a.replay.to_string().len().cmp(&b.replay.to_string().len())));
+        for f in fails {
+            if seen.insert(f.signature.clone()) {
+                ctx.judge(Err(f));
+            }
+        }
+        ctx.class_n("navigation keys held down on tables of 4-130, 199-201, 255-257, 1000, 1023-1025 rows", cases.len() as u64);
+    }
     let n = ctx.tier.pick(4_000u32, 100_000u32);
     let shards = 16u32;
     (0..shards).into_par_iter().for_each(|s| {
-        run_prop(ctx, &format!("random-{s}"), n / shards, (prop_oneof![Just(0usize), Just(1), Just(2), Just(3), Just(10), Just(1000)], proptest::collection::vec(ev_strategy(), 0..300)), |(rows, seq)| {
+        run_prop(ctx, &format!("random-{s}"), n / shards, (prop_oneof![Just(0usize), Just(1), Just(2), Just(3), Just(10), Just(1000), 4usize..300], proptest::collection::vec(ev_strategy(), 0..300)), |(rows, seq)| {
             ctx.class(&format!("random sequence, {rows} rows"));
             check_seq(ctx, &pool, *rows, seq, true)
         });
